@@ -454,7 +454,7 @@ func (tx *Tx) buildListIdx(bucket string, entry *Entry) {
 	case DataRPushFlag:
 		_, _ = tx.db.ListIdx[bucket].RPush(string(key), value)
 	case DataLRemFlag:
-		countAndValue := strings.Split(string(value), SeparatorForListKey)
+		countAndValue := strings.SplitN(string(value), SeparatorForListKey, 2)
 		count, _ := strconv2.StrToInt(countAndValue[0])
 		newValue := countAndValue[1]
 
